@@ -53,8 +53,13 @@ CFG = {
 }
 
 
-def alphabet(world, name):
+QUICK_SOURCES = {"W-mix": [P("a"), P("l", 1), P("o", ("a", "q"))], "W-nest": [P("a"), P("n", "x"), P("n", "y")]}
+
+
+def alphabet(world, name, tier="thorough"):
     cfg = dict(CFG[name])
+    if tier == "quick" and world["name"] in QUICK_SOURCES:
+        cfg["sources"] = QUICK_SOURCES[world["name"]]     # operands of the templates come from 3 locations (targets: all)
     loads = _loads(world)
     cfg["extra"] = loads[:8] + [("copyfrom", op[1], op[2]) for op in loads[:4]]
     return cfg
@@ -222,6 +227,48 @@ class System(ManagerSystem):
                 self.judge_followups(copied, f"the manager built by copy_expr_from (binding {bname})", ns, hist, op, issues)
                 if issues:
                     return issues
+            # ---- overwrite=False / True against a destination that already defines one of the targets differently
+            if ns.tasks:
+                (k0, t0) = next(iter(ns.tasks.items()))
+                other = ("bin", "add", t0.term, ("lit", 100))
+                for ow in (False, True):
+                    c = Sub(self.world, contents, top_label, nested)
+                    from xdeps.tasks import ExprTask
+                    c.m.register(ExprTask(c.ref(k0[1]), T.to_ref(other, c.roots)))
+                    try:
+                        c.m.copy_expr_from(m, "s", bindings=None if (top_label == "s" and not nested) else {"s": c.bound}, overwrite=ow)
+                    except BaseException as e:  # noqa
+                        issues.append(self.issue("violation", hist, op, f"copy_expr_from(binding {bname}, overwrite={ow}) raised "
+                                                                        f"{type(e).__name__}: {str(e)[:160]}"))
+                        return issues
+                    for tid, t in ns.tasks.items():
+                        e = c.ref(tid[1])._expr
+                        want = T.to_ref(other if (tid == k0 and not ow) else t.term, c.roots)
+                        if e is None or not (e == want):
+                            issues.append(self.issue("violation", hist, op, f"copy_expr_from(binding {bname}, overwrite={ow}) onto a manager that already "
+                                                                            f"defines {c.ref(k0[1])}: {c.ref(tid[1])} is defined as {e}, expected {want}"))
+                            return issues
+                    if len(c.m.tasks) != len(ns.tasks):
+                        issues.append(self.issue("violation", hist, op, f"copy_expr_from(binding {bname}, overwrite={ow}): {len(c.m.tasks)} definitions, "
+                                                                        f"expected {len(ns.tasks)}"))
+                        return issues
+        # ---- only the named container's definitions are copied: a second container whose label extends the copied label
+        if ns.tasks:
+            from xdeps.tasks import ExprTask
+            extra = {"x": 1, "y": 2}
+            s2 = m.ref(extra, "s2")
+            m.register(ExprTask(s2["y"], s2["x"] * 2))
+            c = Sub(self.world, contents, "s", False)
+            d2 = {"x": 5, "y": 6}
+            c2 = c.m.ref(d2, "s2")
+            try:
+                c.m.copy_expr_from(m, "s")
+            except BaseException as e:  # noqa
+                issues.append(self.issue("violation", hist, op, f"copy_expr_from with a second container 's2' in the source raised {type(e).__name__}: {e}"))
+                return issues
+            if c2["y"]._expr is not None or len(c.m.tasks) != len(ns.tasks):
+                issues.append(self.issue("violation", hist, op, "copy_expr_from(m, 's') also copied definitions of the container 's2' "
+                                                                f"({sorted(map(str, c.m.tasks))})"))
         return issues
 
 
@@ -439,7 +486,7 @@ def plan(tier, seed):
     for hs in seeds:
         for wname, alpha, depth in runs:
             jobs.append({"name": f"bfs:{wname}:{alpha}:d{depth}:seed{hs}", "mode": "compiled", "hashseed": hs, "nproc": 4 if tier == "quick" else 8,
-                         "timeout": 3300, "args": {"what": "bfs", "world": wname, "alphabet": alpha, "depth": depth, "time_cap": 2400}})
+                         "timeout": 3300, "args": {"what": "bfs", "world": wname, "alphabet": alpha, "depth": depth, "time_cap": 2400, "tier": tier}})
     return {"level": LEVEL, "jobs": jobs,
             "assumptions": ["constants are finite Python ints/floats (the property's constant language); the namespace for term-level "
                             "re-evaluation binds the container labels, math and floor/ceil/trunc; loadability by Manager.load is checked separately",
@@ -456,7 +503,7 @@ def run_job(job):
         return {"kind": "terms", "evaluations": r["evaluations"], "issues": r["issues"], "texts": len(r.get("texts", ())),
                 "outcomes": r.get("outcomes", {}), "corpus": len(corpus)}
     w = WORLDS[a["world"]]
-    return common.run_bfs(System(w, alphabet(w, a["alphabet"]), common.config_info(job)), job)
+    return common.run_bfs(System(w, alphabet(w, a["alphabet"], a.get("tier", "thorough")), common.config_info(job)), job)
 
 
 def finish(plan_, results):
